@@ -4,7 +4,7 @@
  *   <rc> <N> <N_active> <N_allocated>
  * Protocol (see rv/c14.py asan_text):
  *   new tree box boundary integrator | add id hash xhex yhex zhex | rm i ks | rmh h ks | get h
- *   sethash i h | setactive k | setnvar k | rmall | end
+ *   sethash i h | setactive k | setnvar k | rmall | integrate nsteps | end
  */
 #include <stdio.h>
 #include <stdlib.h>
@@ -65,6 +65,11 @@ int main(void){
             if (a>=-1 && a<=(long long)r->N){ r->N_active = (int)a; rc = 0; } else rc = -2;
         }else if (!strcmp(op,"setnvar")){
             sscanf(line, "%*s %lld", &a); r->N_var = (int)a; rc = 0;
+        }else if (!strcmp(op,"integrate")){
+            /* integrate <steps>: a few steps with a tiny dt (lets MERCURIUS/TRACE allocate their private arrays) */
+            sscanf(line, "%*s %lld", &a);
+            r->dt = 1e-6;
+            reb_simulation_steps(r, (unsigned int)a); rc = 0;
         }else if (!strcmp(op,"rmall")){
             reb_simulation_remove_all_particles(r); rc = 0;
         }
